@@ -666,6 +666,10 @@ func kinesisMonitor(lines, outs []string, m *Model) []Violation {
 			vs = append(vs, Violation{"C11", "a PutRecords call carried a record that is not an unmodified record of the batch (" + p + ")", ""})
 			continue
 		}
+		// C05 at the sink: every call submits records in the batch's order
+		if ans, err := m.Do(fmt.Sprintf("kinesismon order %s %s", joinList(recs, ","), kinField(outs[i], "calls"))); err == nil && strings.HasPrefix(ans, "viol") {
+			vs = append(vs, Violation{"C05", "a PutRecords call submits records of one batch out of the batch's (delivery) order: " + l + " => " + outs[i], ""})
+		}
 		q := fmt.Sprintf("kinesismon check %s %s %s %s %s [%s]", joinList(recs, ","), kinField(outs[i], "calls"), w[3], result, reported, strings.Join(txns, ";"))
 		ans, err := m.Do(q)
 		if err != nil {
